@@ -127,4 +127,177 @@ theorem SameCommittees.trans {cfg : Config} {s s' s'' : State} (h1 : SameCommitt
   obtain ⟨b1, b2⟩ := h2.2.2.2 i _ v'' hv' hv''
   exact ⟨by rw [b1, a1], fun e he => by rw [b2 e (by rw [hcur]; exact he), a2 e he]⟩
 
+/-! ### the premise `OpSteps` discharged: phase0 blocks whose only operations are voluntary exits -/
+
+/-- what an accepted `ProcessVoluntaryExit` does: the registry after `initiate_validator_exit` of an ACTIVE validator -/
+theorem processVoluntaryExit_shape (cfg : Config) (ctx : Ctx) (st st' : State) (exit : SignedVoluntaryExit)
+    (hact : ctx.activeCount = (st.validators.filter (is_active_validator · (st.slot / cfg.SLOTS_PER_EPOCH))).length)
+    (hq : cfg.CHURN_LIMIT_QUOTIENT ≠ 0) (hreg : RegU64 st.validators) (hsmall : ExitSmall cfg st)
+    (h : processVoluntaryExit cfg ctx st exit = .ok st') :
+    ∃ v, st.validators[exit.validator_index]? = some v ∧ is_active_validator v (st.slot / cfg.SLOTS_PER_EPOCH) = true ∧
+      st' = { st with validators := initiate_validator_exit_pure cfg (st.slot / cfg.SLOTS_PER_EPOCH) st.validators exit.validator_index } := by
+  unfold processVoluntaryExit at h
+  simp only [guard_bind, rget_bind] at h
+  by_cases hlt : exit.validator_index < st.validators.length
+  · simp only [hlt, decide_true, if_true, List.getElem?_eq_getElem hlt] at h
+    by_cases ha : (decide (st.validators[exit.validator_index].activation_epoch ≤ st.slot / cfg.SLOTS_PER_EPOCH) &&
+        decide (st.slot / cfg.SLOTS_PER_EPOCH < st.validators[exit.validator_index].exit_epoch)) = true
+    · simp only [ha, if_true] at h
+      refine ⟨_, List.getElem?_eq_getElem hlt, ha, ?_⟩
+      repeat' split at h
+      all_goals first | (cases h; done) | skip
+      unfold initiateExit at h
+      have hex : ∀ v ∈ st.validators, v.exit_epoch ≤ FAR_FUTURE_EPOCH := by
+        intro v hv; have := (hreg v hv).1; unfold FAR_FUTURE_EPOCH; omega
+      rw [BeaconBlock.initiateExit_eq cfg _ ctx.activeCount st.validators _ hlt hact hq hex hsmall] at h
+      simp only [res_bind_ok, Res.pure_eq] at h
+      cases h; rfl
+    · simp only [ha, if_false] at h; cases h
+  · simp [hlt] at h
+
+/-- one `initiate_validator_exit` keeps the exit-queue budget and the `uint64` range of the registry epochs -/
+theorem ive_budget_reg (cfg : Config) (cur C : Nat) (vals : List Validator) (i : Nat) (v0 : Validator)
+    (hv0 : vals[i]? = some v0) (hact : v0.exit_epoch = FAR_FUTURE_EPOCH → is_active_validator v0 cur = true)
+    (hb : qmax cfg cur vals + farCount vals ≤ C) (hC : C + 1 + cfg.MIN_VALIDATOR_WITHDRAWABILITY_DELAY < 2 ^ 64)
+    (hreg : RegU64 vals) :
+    qmax cfg cur (initiate_validator_exit_pure cfg cur vals i) + farCount (initiate_validator_exit_pure cfg cur vals i) ≤ C ∧
+    RegU64 (initiate_validator_exit_pure cfg cur vals i) := by
+  have hbound : ∀ l : List Validator, ∃ Bm, ∀ v ∈ l, v.effective_balance ≤ Bm := by
+    intro l
+    induction l with
+    | nil => exact ⟨0, fun v hv => by cases hv⟩
+    | cons a t ih =>
+      obtain ⟨B, hB⟩ := ih
+      refine ⟨max a.effective_balance B, fun v hv => ?_⟩
+      rcases List.mem_cons.mp hv with h | h
+      · subst h; exact Nat.le_max_left _ _
+      · exact Nat.le_trans (hB v h) (Nat.le_max_right _ _)
+  obtain ⟨Bm, hBm⟩ := hbound vals
+  have h := ive_inv cfg cur C Bm vals i v0 hv0 hact hb hC hreg hBm
+  exact ⟨h.1, h.2.1⟩
+
+/-- what header, randao, eth1 vote and voluntary exits need and keep (phase0) -/
+structure ExitInv (cfg : Config) (p C : Nat) (ctx : Ctx) (st : State) : Prop where
+  head : HeadInv cfg p ctx st
+  act : ctx.activeCount = (st.validators.filter (is_active_validator · (st.slot / cfg.SLOTS_PER_EPOCH))).length
+  budget : qmax cfg (st.slot / cfg.SLOTS_PER_EPOCH) st.validators + farCount st.validators ≤ C
+  reg : RegU64 st.validators
+  shard : st.slot / cfg.SLOTS_PER_EPOCH + cfg.SHARD_COMMITTEE_PERIOD < 2 ^ 64
+
+theorem ExitInv.exitSmall {cfg : Config} {p C : Nat} {ctx : Ctx} {st : State} (h : ExitInv cfg p C ctx st)
+    (hC : C + 1 + cfg.MIN_VALIDATOR_WITHDRAWABILITY_DELAY < 2 ^ 64) : ExitSmall cfg st := by
+  unfold ExitSmall
+  have := h.budget
+  rw [qmax_eq_maxOf] at this
+  unfold compute_activation_exit_epoch at this
+  omega
+
+/-- a phase0 block whose only operations are voluntary exits -/
+structure OnlyExits (block : SignedBlock) : Prop where
+  ps : block.proposer_slashings = []
+  as : block.attester_slashings = []
+  att : block.attestations = []
+  dep : block.deposits = []
+  bls : block.bls_to_execution_changes = []
+  payload : block.execution_payload = none
+  sync : block.sync_aggregate = none
+
+set_option maxHeartbeats 1000000 in
+/-- `OpSteps` for `ExitInv`, for phase0 blocks that carry voluntary exits only: every field is discharged -/
+theorem opSteps_exits (cfg : Config) (block : SignedBlock) (p C : Nat) (hno : OnlyExits block)
+    (hpos : 0 < cfg.EPOCHS_PER_HISTORICAL_VECTOR)
+    (hlook : (cfg.MIN_SEED_LOOKAHEAD + 1) % cfg.EPOCHS_PER_HISTORICAL_VECTOR ≠ 0)
+    (hsmall : cfg.EPOCHS_PER_ETH1_VOTING_PERIOD * cfg.SLOTS_PER_EPOCH * 2 + 2 < 2 ^ 64)
+    (hq : cfg.CHURN_LIMIT_QUOTIENT ≠ 0) (hC : C + 1 + cfg.MIN_VALIDATOR_WITHDRAWABILITY_DELAY < 2 ^ 64) :
+    OpSteps cfg block .phase0 (ExitInv cfg p C) := by
+  -- an operation that keeps registry and slot keeps the exit facts
+  have hkeep : ∀ ctx st st', ExitInv cfg p C ctx st → HeadInv cfg p ctx st' → st'.validators = st.validators → st'.slot = st.slot →
+      ExitInv cfg p C ctx st' := by
+    intro ctx st st' hi hh hv hs
+    exact ⟨hh, by rw [hv, hs]; exact hi.act, by rw [hv, hs]; exact hi.budget, by rw [hv]; exact hi.reg, by rw [hs]; exact hi.shard⟩
+  refine
+    { fork := fun ctx st hi => hi.head.fork
+      header := ?_, payload := ?_, withdrawals := ?_, randao := ?_, eth1 := ?_, proposerSlashing := ?_, attesterSlashing := ?_,
+      attestation := ?_, deposit := ?_, exit := ?_, blsChange := ?_, sync := ?_ }
+  · intro ctx st hi
+    refine ⟨sim_header cfg ctx st block p hi.head.prop hi.head.ctxp, fun st' h => ?_⟩
+    have h' := h
+    rw [hi.head.ctxp] at h'
+    simp only [ofOpt, res_bind_ok] at h'
+    obtain ⟨hv, hs, hm, hf⟩ := processHeader_frame st st' block p h'
+    refine hkeep ctx st st' hi ?_ hv hs
+    have hd : SameDuties cfg st st' := sameDuties_of_frame cfg st st' hv hs (seed_of_mixes cfg st st' _ _ hm)
+    exact ⟨by rw [hf]; exact hi.head.fork, hi.head.ctxp, by rw [proposer_frame cfg st st' hd]; exact hi.head.prop,
+      by rw [hv]; exact hi.head.plt, by rw [hm]; exact hi.head.mixes⟩
+  · intro ctx payload hpl; rw [hno.payload] at hpl; cases hpl
+  · intro ctx payload hpl; rw [hno.payload] at hpl; cases hpl
+  · intro ctx st _ _ hi
+    refine ⟨sim_randao cfg ctx st block p hi.head.prop hi.head.ctxp hi.head.plt hi.head.mixes hpos, fun st' h => ⟨?_, fun hf => by cases hf⟩⟩
+    obtain ⟨hv, hs, hf, x, hm⟩ := processRandao_frame cfg ctx st st' block h
+    refine hkeep ctx st st' hi ?_ hv hs
+    have hseed : get_seed cfg st' (get_current_epoch cfg st) DOMAIN_BEACON_PROPOSER = get_seed cfg st (get_current_epoch cfg st) DOMAIN_BEACON_PROPOSER := by
+      apply seed_set_frame cfg st st' x _ hlook
+      rw [hm, hi.head.mixes]; rfl
+    have hd : SameDuties cfg st st' := sameDuties_of_frame cfg st st' hv hs hseed
+    exact ⟨by rw [hf]; exact hi.head.fork, hi.head.ctxp, by rw [proposer_frame cfg st st' hd]; exact hi.head.prop,
+      by rw [hv]; exact hi.head.plt, by rw [hm, List.length_set]; exact hi.head.mixes⟩
+  · intro ctx st _ _ hi
+    refine ⟨sim_eth1 cfg st block hsmall, fun st' h => ⟨?_, fun hf => by cases hf⟩⟩
+    obtain ⟨hv, hs, hm, hf⟩ := processEth1_frame cfg st st' block.eth1_data h
+    refine hkeep ctx st st' hi ?_ hv hs
+    have hd : SameDuties cfg st st' := sameDuties_of_frame cfg st st' hv hs (seed_of_mixes cfg st st' _ _ hm)
+    exact ⟨by rw [hf]; exact hi.head.fork, hi.head.ctxp, by rw [proposer_frame cfg st st' hd]; exact hi.head.prop,
+      by rw [hv]; exact hi.head.plt, by rw [hm]; exact hi.head.mixes⟩
+  · intro ctx st x hx; rw [hno.ps] at hx; cases hx
+  · intro ctx st x hx; rw [hno.as] at hx; cases hx
+  · intro ctx st x hx; rw [hno.att] at hx; cases hx
+  · intro ctx st d hd; rw [hno.dep] at hd; cases hd
+  · -- voluntary exits
+    intro ctx st exit _ hi
+    have hes := hi.exitSmall hC
+    refine ⟨sim_exit cfg ctx st exit hi.act hq hi.reg hes hi.shard, fun st' h => ⟨?_, fun hf => by cases hf⟩⟩
+    obtain ⟨v, hv, hactive, hst'⟩ := processVoluntaryExit_shape cfg ctx st st' exit hi.act hq hi.reg hes h
+    have hcurfar : get_current_epoch cfg st < FAR_FUTURE_EPOCH := by
+      have := cae_le_qmax cfg (st.slot / cfg.SLOTS_PER_EPOCH) st.validators
+      have hb := hi.budget
+      unfold compute_activation_exit_epoch at this
+      unfold get_current_epoch compute_epoch_at_slot FAR_FUTURE_EPOCH
+      omega
+    have hsc : SameCommittees cfg st st' := by
+      apply sameCommittees_initiate cfg st st' exit.validator_index hcurfar
+      · rw [hst']
+      · rw [hst']
+      · rw [hst']; rfl
+    have hd := hsc.duties
+    obtain ⟨hbud, hreg⟩ := ive_budget_reg cfg (st.slot / cfg.SLOTS_PER_EPOCH) C st.validators exit.validator_index v hv
+      (fun _ => hactive) hi.budget hC hi.reg
+    have hslot : st'.slot = st.slot := by rw [hst']
+    have hvals : st'.validators = initiate_validator_exit_pure cfg (st.slot / cfg.SLOTS_PER_EPOCH) st.validators exit.validator_index := by rw [hst']
+    refine ⟨⟨by rw [hst']; exact hi.head.fork, hi.head.ctxp, by rw [proposer_frame cfg st st' hd]; exact hi.head.prop,
+      by rw [hd.2.2.1]; exact hi.head.plt, by rw [hst']; exact hi.head.mixes⟩, ?_, ?_, ?_, ?_⟩
+    · rw [hi.act, hslot]
+      symm
+      apply filter_length_congr _ _ _ hd.2.2.1.symm
+      intro j w w' h1 h2
+      have := (hd.2.2.2 j w w' h1 h2).2
+      unfold get_current_epoch compute_epoch_at_slot at this
+      exact this
+    · rw [hslot, hvals]; exact hbud
+    · rw [hvals]; exact hreg
+    · rw [hslot]; exact hi.shard
+  · intro ctx st x hx; rw [hno.bls] at hx; cases hx
+  · intro ctx agg hsa; rw [hno.sync] at hsa; cases hsa
+
+
+/-- `M_block_refines_S` and `M_sound` WITHOUT a premise, for phase0 blocks whose only operations are voluntary exits -/
+theorem processBlock_exits (cfg : Config) (ctx : Ctx) (st : State) (block : SignedBlock) (p C : Nat) (hno : OnlyExits block)
+    (hi : ExitInv cfg p C ctx st)
+    (hpos : 0 < cfg.EPOCHS_PER_HISTORICAL_VECTOR)
+    (hlook : (cfg.MIN_SEED_LOOKAHEAD + 1) % cfg.EPOCHS_PER_HISTORICAL_VECTOR ≠ 0)
+    (hsmall : cfg.EPOCHS_PER_ETH1_VOTING_PERIOD * cfg.SLOTS_PER_EPOCH * 2 + 2 < 2 ^ 64)
+    (hq : cfg.CHURN_LIMIT_QUOTIENT ≠ 0) (hC : C + 1 + cfg.MIN_VALIDATOR_WITHDRAWABILITY_DELAY < 2 ^ 64)
+    (htyped : Block.check_types cfg block = .ok ()) :
+    Sim (Block.process_block cfg st block) (processBlock cfg ctx st block) :=
+  processBlock_sim (opSteps_exits cfg block p C hno hpos hlook hsmall hq hC) ctx st hi htyped
+
 end Zrnt.Proofs.BlockM
